@@ -786,6 +786,122 @@ theorem run_stopped (c : Cfg) : ∀ (ops : List Op) (s : St), Inv c s → s.stop
     have r := ih _ (inv_step i op) st.1
     exact ⟨r.1, r.2.trans st.2⟩
 
+/-! ### get_state, rejected timed events, liveness -/
+
+theorem getState_some {c : Cfg} {s : St} (i : Inv c s) (q : String) (w : Nat)
+    (h : getState s = some (q, some w)) : ∃ hd, live s = [hd] ∧ hd.when = w ∧ s.active = some hd.id := by
+  unfold getState at h
+  split at h
+  · cases h
+  · next q' hq =>
+    simp only [Option.some.injEq, Prod.mk.injEq] at h
+    obtain ⟨_, h⟩ := h
+    split at h
+    · cases h
+    · next id ha =>
+      split at h
+      · next x hx =>
+        split at h
+        · cases h
+        · next hc =>
+          simp only [Option.some.injEq] at h
+          have hmem : x ∈ s.timers := List.mem_of_find?_eq_some hx
+          have hlive : x ∈ live s := by
+            unfold live; simp [List.mem_filter, hmem, hc]
+          rcases i.timer with ⟨hl, _⟩ | ⟨hd, hl, hact, _⟩
+          · rw [hl] at hlive; cases hlive
+          · rw [hl] at hlive
+            simp only [List.mem_singleton] at hlive
+            subst hlive
+            exact ⟨x, hl, h, hact⟩
+      · cases h
+
+theorem getState_idle {s : St} (hi : Idle s) (q : String) (hq : s.state = some q) :
+    getState s = some (q, none) := by
+  unfold getState
+  rw [hq, hi.2]
+
+theorem fire_rejected {c : Cfg} {s : St} (i : Inv c s) (hf : s.failed = none) (h : Handle)
+    (hm : h ∈ live s) (hr : (deliver c (popTimer s h) h.ev {}).2 = .ret false) :
+    Idle (fire c s h) ∧ (fire c s h).state = s.state ∧ (fire c s h).epoch = s.epoch := by
+  have ip := inv_popTimer i hf h hm
+  have sp := deliver_spec ip.1 hf h.ev {}
+  have fr := sp.2.2.2.2.2 hr
+  exact ⟨idle_of_frame fr ip.2, fr.state, fr.epoch⟩
+
+theorem deliver_accepted {c : Cfg} {s : St} (i : Inv c s) (hf : s.failed = none) (e : TEvent)
+    (d : EvData) (h : Handle) (hm : h ∈ live s) (hr : (deliver c s e d).2 = .ret true) :
+    h ∉ live (deliver c s e d).1 ∧ ∀ h' ∈ live (deliver c s e d).1, h.epoch < h'.epoch := by
+  have sp := deliver_spec i hf e d
+  have i2 := inv_deliver i hf e d
+  have hep : h.epoch = s.epoch := by
+    rcases i.timer with ⟨hl, _⟩ | ⟨h0, hl, _, he, _⟩
+    · rw [hl] at hm; cases hm
+    · rw [hl] at hm; simp only [List.mem_singleton] at hm; subst hm; exact he
+  have key : ∀ h' ∈ live (deliver c s e d).1, h.epoch < h'.epoch := by
+    intro h' hm'
+    rcases i2.timer with ⟨hl, _⟩ | ⟨h0, hl, _, he, _⟩
+    · rw [hl] at hm'; cases hm'
+    · rw [hl] at hm'; simp only [List.mem_singleton] at hm'; subst hm'
+      have := sp.2.2.2.2.1 hr
+      omega
+  exact ⟨fun hin => Nat.lt_irrefl _ (key h hin), key⟩
+
+theorem fires_popTimer (s : St) (h : Handle) :
+    fires (popTimer s h).log =
+      fires s.log ++ [(if s.now < h.when then h.when else s.now, h, s.epoch)] := by
+  simp [popTimer, fires_append, fires]
+
+theorem fires_fire {c : Cfg} {s : St} (i : Inv c s) (hf : s.failed = none) (h : Handle)
+    (hm : h ∈ live s) :
+    fires (fire c s h).log = fires s.log ++ [(h.when, h, s.epoch)] := by
+  have ip := inv_popTimer i hf h hm
+  have sp := deliver_spec ip.1 hf h.ev {}
+  unfold fire
+  rw [sp.1, fires_popTimer]
+  have hw : s.now ≤ h.when := by
+    rcases i.timer with ⟨hl, _⟩ | ⟨h0, hl, _, _, hw, _⟩
+    · rw [hl] at hm; cases hm
+    · rw [hl] at hm; simp only [List.mem_singleton] at hm; subst hm; exact hw hf
+  have : (if s.now < h.when then h.when else s.now) = h.when := by split <;> omega
+  rw [this]
+
+theorem fires_mono_advanceAux (c : Cfg) (t : Nat) (strict : Bool) : ∀ (fuel : Nat) (s : St),
+    Inv c s → ∀ x ∈ fires s.log, x ∈ fires (advanceAux c fuel s t strict).log := by
+  intro fuel
+  induction fuel with
+  | zero => intro s _ x hx; unfold advanceAux; rw [(frame_fail _ _).fires]; exact hx
+  | succ n ih =>
+    intro s i x hx
+    unfold advanceAux
+    split
+    · exact hx
+    · next hf =>
+      split
+      · exact hx
+      · next h hd =>
+        have hm := (nextDue_mem s t strict h hd).1
+        have hf' := isSome_false_none hf
+        apply ih _ (inv_fire i hf' h hm)
+        rw [fires_fire i hf' h hm]
+        exact List.mem_append_left _ hx
+
+/-- the pending timer fires, at its time, when the clock passes it -/
+theorem advance_fires {c : Cfg} {s : St} (i : Inv c s) (hf : s.failed = none) (h : Handle)
+    (hl : live s = [h]) (t : Nat) (strict : Bool) (hd : isDue t strict h = true) :
+    (h.when, h, s.epoch) ∈ fires (advance c s t strict).log := by
+  unfold advance
+  show _ ∈ fires (advanceAux c (((t - s.now) + s.timers.length + 1) + 1) s t strict).log
+  unfold advanceAux
+  have hnd : nextDue s t strict = some h := by
+    unfold nextDue; rw [hl]; simp [hd, earliest]
+  have hm : h ∈ live s := by rw [hl]; simp
+  rw [hf, hnd]
+  simp only [Option.isSome_none, Bool.false_eq_true, ↓reduceIte]
+  apply fires_mono_advanceAux c t strict _ _ (inv_fire i hf h hm)
+  rw [fires_fire i hf h hm]
+  simp
+
 theorem inv_run (c : Cfg) : ∀ (ops : List Op) (s : St), Inv c s → Inv c (run c s ops) := by
   intro ops
   induction ops with
